@@ -416,8 +416,8 @@ impl<'de, R: Read<'de>> Deserializer<R> {
     }
 
     fn scan_integer128(&mut self, buf: &mut String) -> Result<()> {
-        match tri!(self.next_char_or_null()) {
-            b'0' => {
+        match tri!(self.next_char()) {
+            Some(b'0') => {
                 buf.push('0');
                 // There can be only one leading '0'.
                 match tri!(self.peek_or_null()) {
@@ -425,7 +425,7 @@ impl<'de, R: Read<'de>> Deserializer<R> {
                     _ => Ok(()),
                 }
             }
-            c @ b'1'..=b'9' => {
+            Some(c @ b'1'..=b'9') => {
                 buf.push(c as char);
                 while let c @ b'0'..=b'9' = tri!(self.peek_or_null()) {
                     self.eat_char();
@@ -433,7 +433,8 @@ impl<'de, R: Read<'de>> Deserializer<R> {
                 }
                 Ok(())
             }
-            _ => Err(self.error(ErrorCode::InvalidNumber)),
+            Some(_) => Err(self.error(ErrorCode::InvalidNumber)),
+            None => Err(self.error(ErrorCode::EofWhileParsingValue)),
         }
     }
 
@@ -2182,14 +2183,16 @@ macro_rules! deserialize_numeric_key {
 
             match tri!(self.de.peek()) {
                 Some(b'0'..=b'9' | b'-') => {}
-                _ => return Err(self.de.error(ErrorCode::ExpectedNumericKey)),
+                Some(_) => return Err(self.de.error(ErrorCode::ExpectedNumericKey)),
+                None => return Err(self.de.peek_error(ErrorCode::EofWhileParsingString)),
             }
 
             let value = tri!(self.de.$delegate(visitor));
 
             match tri!(self.de.peek()) {
                 Some(b'"') => self.de.eat_char(),
-                _ => return Err(self.de.peek_error(ErrorCode::ExpectedDoubleQuote)),
+                Some(_) => return Err(self.de.peek_error(ErrorCode::ExpectedDoubleQuote)),
+                None => return Err(self.de.peek_error(ErrorCode::EofWhileParsingString)),
             }
 
             Ok(value)
